@@ -82,7 +82,7 @@ Definition defaults2 (name : string) (t : list (string * size2)) : option pv * o
 Definition scale (v : pv) : sel pv :=
   match v with
   | PNum _ _ => SOk v
-  | PLit s => SOk (PLit (String.append "(" (String.append s " * 1e6)")))
+  | PLit s => SOk (PLit (grouped_scaled s))                    (* fix C15-9: `(({text}) * 1e6)` *)
   | _ => SErr EEscape
   end.
 
